@@ -1,1 +1,10 @@
--- dev stub
+import Lessm.Props.C03
+open Lessm.Vars
+#print axioms C03
+#print axioms C03_no_ref
+#print axioms C03_no_ref_decl
+#print axioms C03_no_ref_compile
+#print axioms C03_unknown
+#print axioms C03_unknown_sel
+#print axioms C03_local
+#print axioms C03_innermost
